@@ -17,7 +17,7 @@ Proof. exact handlers_disciplined. Qed.
 
 (* ... and u2fSignResponse as it was (delete(state.localAuthData, ..) after the Unlock) did race *)
 Theorem c16_old_unlocked_delete_refuted :
-  exists sched, data_race (run (init_world ex_db [(M_localAuth, 1, 3)] [handler (HU2fSignRespOld 1 true); handler (HU2fSignReq 1 5)]) sched).
+  exists sched, data_race (run (init_world ex_db [(M_localAuth, 1, 3)] [handler (HU2fSignRespOld 1 3); handler (HU2fSignReq 1 5)]) sched).
 Proof. exact old_unlocked_delete. Qed.
 
 (* No torn profile: under any schedule of any programs a loaded profile is one of the initial rows
